@@ -103,14 +103,14 @@ def run_labels(ck):
     # the city.CH64 values quoted in proofs/FingerprintInjProofs.v (real_tbl) are those of the code
     src = open(os.path.join(HERE, "coq", "proofs", "FingerprintInjProofs.v")).read()
     blk = re.search(r"Definition real_tbl.*?\]\.", src, re.S)
-    quoted = dict(re.findall(r'\("(\w+)"%string, (\d+)\)', blk.group(0))) if blk else {}
+    quoted = dict(re.findall(r'\("([\w.]+)"%string, (\d+)\)', blk.group(0))) if blk else {}
     real = {}
     for c in cases:
         for hx_, v in c.get("ch") or []:
             real[unhex(hx_).decode("latin1")] = str(v)
     wrong = {k: (v, real.get(k)) for k, v in quoted.items() if real.get(k) != v}
     ck.obligation("the %d city.CH64 values used by fingerprint_identifies_label_set_on_real_hashes are the values the code computes" % len(quoted),
-                  len(quoted) >= 6 and not wrong, "quoted vs computed: %s" % wrong)
+                  len(quoted) >= 11 and not wrong, "quoted vs computed: %s" % wrong)
     outp = os.path.join(ck.work, "labels.jsonl")
     rc, out = ck.go_run("seriesid", ["--mode", "labels", "--seed", ck.seed, "--n", n, "--out", outp])
     if rc != 0:
